@@ -169,6 +169,8 @@ class Zoo:
             src.append(f"    fn with_emp<K: Kont<Self>>(v: &Value, style: u64, k: K) -> K::Out {{ let f = v.fields(); k.call({init}) }}")
         if default:
             src.append("    fn default_emp<K: Kont<Self>>(k: K) -> Option<K::Out> { Some(k.call(<Self as FlatDefault>::default_emplacer())) }")
+            if sized:
+                src.append("    fn rust_default() -> Option<Value> { Some(<Self as Default>::default().read()) }")
         src.append(f"    fn n_children(&self) -> usize {{ {len(fields)} }}")
         arms = " ".join(f"{i} => {{ f(&RefH(&self.{a})); true }}" for i, a in enumerate(acc))
         src.append(f"    fn child(&self, i: u32, f: &mut dyn FnMut(&dyn ShapeDyn)) -> bool {{ match i {{ {arms} _ => false }} }}")
@@ -288,6 +290,8 @@ class Zoo:
             src.append("    }")
         if default is not None:
             src.append("    fn default_emp<K: Kont<Self>>(k: K) -> Option<K::Out> { Some(k.call(<Self as FlatDefault>::default_emplacer())) }")
+            if sized:
+                src.append("    fn rust_default() -> Option<Value> { Some(<Self as Default>::default().read()) }")
         arms = " ".join(f"{pat(i, refp, '_b')} => {len(fs)}," for i, (st, fs) in enumerate(variants))
         src.append(f"    fn n_children(&self) -> usize {{ match {scrut} {{ {arms} }} }}")
         arms = []
